@@ -1,5 +1,6 @@
 import Retro.Drv.RasterCommon
 import Retro.Model.Poison
+import Retro.Model.F32Interp
 
 namespace Retro.Drv.C05
 open Retro Retro.Raster Retro.Drv Retro.Drv.RasterCommon
@@ -13,7 +14,7 @@ def chunk3 (stride : Nat) (ws : List Rat) : Option (List Rat × List Rat × List
 
 def range3 (a b c : Rat) : Rat := ratMax a (ratMax b c) - ratMin a (ratMin b c)
 
-def handle (case impl : List String) : Verdict :=
+def handleCore (case impl : List String) : Verdict :=
   match case with
   | "frags" :: kind :: ws =>
     let k := kindWords kind
@@ -136,5 +137,34 @@ def handle (case impl : List String) : Verdict :=
 where
   chunk (stride : Nat) (idx : List Nat) (ws : List String) : List (List String) :=
     idx.map fun i => (ws.drop (i * stride)).take stride
+
+/-- The Float32 channel (`Model/F32Interp.lean`, design/Float32.md): the model run at native binary32 on
+the same input bits, compared with the implementation's output exactly: every row (y, x range, count)
+and every component of every fragment (position, depth, attributes after `z_div`). `none` = bit-exact.
+Diagnostic only. -/
+def f32Check (case impl : List String) : Option String :=
+  match case with
+  | "frags" :: kind :: ws =>
+    let stride := 3 + kindWords kind
+    let fs := ws.filterMap F32I.f32OfHex
+    if fs.length != ws.length || fs.length != 3 * stride then some "unparseable case" else
+    F32I.rasterCheck stride (fs.take stride) ((fs.drop stride).take stride) (fs.drop (2 * stride)) impl
+  | _ => some "unparseable case"
+
+/-- Adds exactly one of the tags `f32-bit-exact` / `f32-bits-differ`. Never changes the status: the first
+differing component is appended to the message of a verdict that is DIFF or SPEC for another reason. -/
+def withF32 (v : Verdict) (r : Option String) : Verdict :=
+  match r with
+  | none => v.addTag "f32-bit-exact"
+  | some m =>
+    let v := v.addTag "f32-bits-differ"
+    let note := " [f32 channel: " ++ m ++ "]"
+    match v.diff, v.spec with
+    | some d, _ => { v with diff := some (d ++ note) }
+    | none, some (k, s) => { v with spec := some (k, s ++ note) }
+    | none, none => v
+
+def handle (case impl : List String) : Verdict :=
+  withF32 (handleCore case impl) (f32Check case impl)
 
 end Retro.Drv.C05
